@@ -393,40 +393,37 @@ def _run(ctx):
 
     # 0. the telnet framing machine and the session lifetime at design level
     ctx.tlc_mc(SPEC, "MC_TelnetFraming.tla", "MC_telnet.cfg", required_actions=["Recv"])
-    ctx.tlc_mc(SPEC, "MC_TelnetFraming.tla", "MC_telnet3.cfg", coverage=False)
+    if not quick:
+        ctx.tlc_mc(SPEC, "MC_TelnetFraming.tla", "MC_telnet3.cfg", coverage=False)
     ctx.tlc_mc(SPEC, "MC_TelnetFraming.tla", "MC_telnet_asfound.cfg", expect="NoReadBeyondData", coverage=False)
     ctx.tlc_mc(SPEC, "Session.tla", "MC_session.cfg", required_actions=["Connect", "ExitCmd", "PeerClose", "RunClosure"])
     ctx.tlc_mc(SPEC, "Session.tla", "MC_session_asfound.cfg", expect="NoUseOfFreed", coverage=False)
 
     # 1. the reference itself: independent ghost formulations of the statement hold on the bounded model
-    acts = ["Char", "Backspace", "Delete", "Left", "Right", "Home", "End", "Up", "Down", "Enter", "CmdLine"]
-    ctx.tlc_mc(SPEC, "MC_LineEditor_cmds.tla", "MC_cov.cfg", required_actions=acts)
-    ctx.tlc_mc(SPEC, "MC_LineEditor_cmds.tla", "MC_cmds_full.cfg", coverage=False)
+    # vacuity guard: some behaviour of the bounded model takes every action (NotAllSeen is expected to be violated;
+    # TLC's own -coverage costs ~20 s of start-up on this module, so the actions are collected in a ghost variable)
+    ctx.tlc_mc(SPEC, "MC_LineEditor_cov.tla", "MC_cov.cfg", expect="NotAllSeen", coverage=False, simulate=(100000, 80), timeout=120)
+    ctx.tlc_mc(SPEC, "MC_LineEditor_cmds.tla", "MC_cmds4.cfg" if quick else "MC_cmds_full.cfg", coverage=False)
     ctx.tlc_mc(SPEC, "MC_LineEditor_cmds.tla", "MC_edit_quick.cfg" if quick else "MC_edit.cfg", coverage=False)
     ctx.tlc_mc(SPEC, "MC_LineEditor_cmds.tla", "MC_asfound.cfg", expect="NoFault", coverage=False)
 
     # 2. spec -> code: every key script of the bounded model, typed into a real Terminal
-    behs = ctx.tlc_gen(SPEC, "Gen_LineEditor.tla", "Gen_edit3.cfg" if quick else "Gen_edit4.cfg")
+    behs = sorted(ctx.tlc_gen(SPEC, "Gen_LineEditor.tla", "Gen_edit3.cfg" if quick else "Gen_edit4.cfg"))
     ctx.exhaustive = True
     ctx.notes.append("editing scripts (4 prefixes x every key sequence of depth %d over {x, blank, 9 editing keys, Enter}): %d"
                      % (3 if quick else 4, len(behs)))
     ctx.sample({"kind": "model key script typed into the real Terminal", "keys": behs[len(behs) // 2]})
     editor(ctx, exe, [key_script(k, rnd) for k in behs], "gen_edit", "replay of %d editing scripts" % len(behs), replayed=True)
-    behs = ctx.tlc_gen(SPEC, "Gen_LineEditor.tla", "Gen_cmds2.cfg" if quick else "Gen_cmds3.cfg")
+    behs = sorted(ctx.tlc_gen(SPEC, "Gen_LineEditor.tla", "Gen_cmds2.cfg" if quick else "Gen_cmds3.cfg"))
     ctx.notes.append("command scripts (3 prefixes x every sequence of %d lines over 21 command lines + Up/Down/Enter): %d"
                      % (2 if quick else 3, len(behs)))
     ctx.sample({"kind": "model command script", "keys": behs[len(behs) // 3]})
-    editor(ctx, exe, [key_script(k, rnd) for k in behs], "gen_cmds", "replay of %d command scripts" % len(behs), replayed=True)
-    deep = ctx.tlc_gen(SPEC, "Gen_LineEditor.tla", "Gen_editsim.cfg", simulate=(1000000, 16), timeout=6 if quick else 40,
-                       limit=3000 if quick else 30000)
-    deep += ctx.tlc_gen(SPEC, "Gen_LineEditor.tla", "Gen_cmdsim.cfg", simulate=(1000000, 32), timeout=6 if quick else 40,
-                        limit=1500 if quick else 15000)
+    editor(ctx, exe, [key_script(k, rnd, ("fake", "fake", "telnet", "rpc")[i % 4]) for i, k in enumerate(behs)], "gen_cmds",
+           "replay of %d command scripts (fake / telnet / rpc front ends)" % len(behs), replayed=True)
     vias = ["fake", "fake", "telnet", "rpc"]
-    editor(ctx, exe, [key_script(k, rnd, vias[i % 4]) for i, k in enumerate(deep)], "gen_sim",
-           "replay of %d simulated deep scripts (fake / telnet / rpc front ends)" % len(deep), replayed=True)
 
     # 3. code -> spec: long random editing sessions on all front ends, exit patterns
-    nsess = 150 if quick else 1500
+    nsess = 400 if quick else 4000
     sess = [key_script(random_session(rnd, rnd.randint(5, 70)), rnd, vias[i % 4]) for i in range(nsess)]
     sess += exit_scripts(rnd)
     editor(ctx, exe, sess, "random", "%d random editing sessions + exit patterns" % len(sess))
